@@ -24,7 +24,7 @@ THEOREMS = ['C03.check_eq_spec', 'C03.anti_symm', 'C03.owner_all', 'C03.case_ins
             'C04.checkCapability_cache_free', 'C04.cache_transparent',
             # obligations on the extracted tables (decide against what /repo says now)
             'C03.rfc1459_table_ok', 'C03.chanTypes_no_dash', 'C03.chanTypes_no_o', 'C03.channel_default_ok',
-            'C03.channel_default_strong', 'C03.default_caps_valid']
+            'C03.channel_default_strong', 'C03.default_caps_valid', 'C03.isCapability_eq_splitWs']
 TRUSTED = ['Lean 4.33.0 kernel; axioms ⊆ {propext, Classical.choice, Quot.sound}',
            'harness/extractors/ircdb_caps.py (rfc1459 table, chantypes/channellen, defaultOff, shipped default capabilities → Gen/IrcDbCaps.lean)',
            'harness/c03.py generators, canonicalisation and the independent decision-list oracle; hex line protocol',
